@@ -394,6 +394,9 @@ namespace Dune
   template <int k>
   inline bigunsignedint<k>& bigunsignedint<k>::operator%= (const bigunsignedint<k>& x)
   {
+    if(x==0)
+      DUNE_THROW(Dune::MathError, "division by zero!");
+
     // better slow than nothing
     while (*this>=x)
     {
